@@ -45,62 +45,3 @@ Proof.
     exists [c], O. cbn [res_map flatten List.concat app]. split; [reflexivity|].
     split; [exact (copied_characters_parse xml c E Hc)|]. intros H; congruence.
 Qed.
-
-(** * Non-vacuity witnesses *)
-Lemma ex_ascii :
-  In PBraces all_prots /\ In UUnihex ascii_policies /\
-  encode_builtin false PBraces UUnihex [233; 20013; 128512]
-  = EncOk (lit "\'e\ensuremath{\langle}\texttt{U+4E2D}\ensuremath{\rangle}\ensuremath{\langle}\texttt{U+1F600}\ensuremath{\rangle}") /\
-  encode_builtin true PBracesAll UReplace [233; 20013] = EncOk (lit "{\'{e}}{\bfseries ?}") /\
-  (* 'keep' does emit non-ASCII *)
-  (exists t, encode_builtin false PBraces UKeep [20013] = EncOk t /\ is_ascii_str t = false).
-Proof.
-  split; [right; left; reflexivity|]. split; [right; right; left; reflexivity|].
-  split; [vm_compute; reflexivity|]. split; [vm_compute; reflexivity|].
-  eexists. split; vm_compute; reflexivity.
-Qed.
-
-Lemma ex_fail :
-  encode_builtin false PBraces UFail [97; 7] = EncValueError /\
-  no_rule false 7 /\ passthrough 7 = false /\
-  encode_builtin false PBraces UFail [97; 233; 37] = EncOk (lit "a\'e\%").
-Proof.
-  split; [vm_compute; reflexivity|]. split; [|split; vm_compute; reflexivity].
-  apply map_of_find_none. vm_compute. reflexivity.
-Qed.
-
-Lemma ex_active :
-  In 37 active_ascii /\ In PNone all_prots /\
-  map_lookup (map_of false) 37 = Some (lit "\%") /\ map_lookup (map_of true) 94 = Some (lit "\^{}") /\
-  (* a bare % WOULD be a comment, a bare $ WOULD open math *)
-  parse_encoded [97; 37; 98] = IParsed 1 0 0 /\ parse_encoded [36; 97; 36] = IParsed 0 0 1 /\
-  encode_builtin false PNone UKeep [97; 37; 98] = EncOk (lit "a\%b") /\
-  parse_encoded (lit "a\%b") = IParsed 0 0 0.
-Proof.
-  split; [repeat (try (left; reflexivity); right)|]. split; [left; reflexivity|].
-  split; [vm_compute; reflexivity|]. split; [vm_compute; reflexivity|].
-  split; [vm_compute; reflexivity|]. split; [vm_compute; reflexivity|].
-  split; vm_compute; reflexivity.
-Qed.
-
-Lemma ex_known :
-  In 779 known_xml_unparseable /\ map_lookup (map_of true) 779 = Some (lit "\H") /\
-  encode_builtin true PBraces UKeep [97; 779] = EncOk (lit "a{\H}") /\
-  parse_encoded (lit "a{\H}") = IParseError (Some 4%nat) /\
-  (* not a key of the default table: nothing to exclude there *)
-  map_lookup (map_of false) 779 = None.
-Proof.
-  split; [apply (proj1 (mem_N_In 779 known_xml_unparseable)); vm_compute; reflexivity|].
-  split; [vm_compute; reflexivity|]. split; [vm_compute; reflexivity|].
-  split; vm_compute; reflexivity.
-Qed.
-
-Lemma ex_orderings :
-  In PBraces all_prots /\
-  encode_builtin false PBraces UFail [92; 97; 37] = EncOk (lit "{\textbackslash}a\%") /\
-  parse_encoded (lit "{\textbackslash}a\%") = IParsed 0 0 0 /\
-  (* without protection the control word swallows the letter (still inert: an unknown macro) *)
-  encode_builtin false PNone UFail [92; 97; 37] = EncOk (lit "\textbackslasha\%").
-Proof.
-  split; [right; left; reflexivity|]. split; [vm_compute; reflexivity|]. split; vm_compute; reflexivity.
-Qed.
